@@ -185,6 +185,28 @@ const (
 // areaTol is the absolute slack of (doubled) area comparisons: 1e-9 x diameter^2.
 func areaTol(in []orb.Point) float64 { d := diamOf(in); return relTol*d*d + underflowArea }
 
+// exactLattice (L6): all coordinates are integers |v| <= 2^20; doubled triangle
+// areas are then integers below 2^43 that float64 evaluates exactly under any
+// evaluation order, so the Visvalingam oracles use no tolerance at all there
+// (only an effective area exactly EQUAL to the threshold may go either way: the
+// documentation says "smaller than", the code removes "not larger than").
+func exactLattice(in []orb.Point) bool {
+	for _, p := range in {
+		if !isSmallInt(p[0]) || !isSmallInt(p[1]) {
+			return false
+		}
+	}
+	return true
+}
+
+// areaSlack returns the relative and absolute slack of area comparisons.
+func areaSlack(in []orb.Point) (float64, float64) {
+	if exactLattice(in) {
+		return 0, 0
+	}
+	return relTol, areaTol(in)
+}
+
 // distinctVertices: in[0..n-2] pairwise different, and in[n-1] either equal to
 // in[0] (closed) or different from all. Then every output vertex identifies
 // its input index and the reference models below apply.
@@ -256,18 +278,166 @@ func checkDPBound(what string, in, out []orb.Point, t float64) error {
 // one of the kept vertices must be a farthest one (distance >= M(1-1e-9)-tol),
 // at which the span splits. Ties and borderline distances are accepted either way.
 func checkDPModel(what string, in []orb.Point, kept []int, t float64) error {
+	_, err := checkDPModelStats(what, in, kept, t)
+	return err
+}
+
+// checkDPModelStats runs the iterative model; when it fails although a span
+// had several tied candidates for the split vertex (the iterative walk tries
+// only the first), the verdict is left to the recursive search over all
+// candidates, so that a tie can never cause a false alarm.
+func checkDPModelStats(what string, in []orb.Point, kept []int, t float64) (dpStats, error) {
+	st, err := checkDPModelIter(what, in, kept, t)
+	if err != nil && st.ties > 0 {
+		err = checkDPModelRec(what, in, 0, len(in)-1, kept[1:len(kept)-1], t, distTol(in))
+	}
+	return st, err
+}
+
+// dpStats reports how deep the split tree of a case is (instrumentation of
+// the model: the number of ranges pending at the same time, which is what an
+// explicit-stack implementation has to hold, and the number of spans visited).
+type dpStats struct {
+	maxPending int
+	spans      int
+	ties       int
+}
+
+func isSmallInt(v float64) bool { return v == math.Trunc(v) && math.Abs(v) <= 1<<20 }
+
+// spanExact (L6): on an axis-aligned (or zero-length) chord whose span holds
+// only integer coordinates |v| <= 2^20 every squared distance is an integer
+// that float64 evaluates exactly under any evaluation order (a vertex on the
+// chord itself may come out as ~1e-32 instead of 0), so for thresholds whose
+// square is exact (float32-representable, >= 2^-20 or 0) the split decision
+// does not depend on rounding: the model then demands the exact answer, also
+// at equality (maxDist == t^2 must NOT split). It returns the exact squared
+// distances' maximum and a function giving the exact squared distance.
+func spanExact(in []orb.Point, lo, hi int, t float64) (bool, func(i int) float64) {
+	a, b := in[lo], in[hi]
+	if a[0] != b[0] && a[1] != b[1] {
+		return false, nil
+	}
+	if !(t == 0 || (t >= 1.0/(1<<20) && t <= 1<<20 && t == float64(float32(t)))) {
+		return false, nil
+	}
+	for i := lo; i <= hi; i++ {
+		if !isSmallInt(in[i][0]) || !isSmallInt(in[i][1]) {
+			return false, nil
+		}
+	}
+	ax := 0 // axis along the chord
+	if a[0] == b[0] {
+		ax = 1
+	}
+	mn, mx := math.Min(a[ax], b[ax]), math.Max(a[ax], b[ax])
+	return true, func(i int) float64 {
+		p := in[i]
+		off := p[1-ax] - a[1-ax]
+		switch {
+		case p[ax] < mn:
+			return (p[ax]-mn)*(p[ax]-mn) + off*off
+		case p[ax] > mx:
+			return (p[ax]-mx)*(p[ax]-mx) + off*off
+		}
+		return off * off
+	}
+}
+
+// checkDPModelIter is iterative (explicit stack, the order of the reference
+// algorithm: the right part of a split is handled first while the left part
+// waits), so that split trees tens of thousands of levels deep are judged
+// without recursion. Only a span in which several kept vertices tie for the
+// farthest one falls back to the recursive search over the candidates.
+func checkDPModelIter(what string, in []orb.Point, kept []int, t float64) (dpStats, error) {
+	var st dpStats
 	tol := distTol(in)
+	type frame struct{ lo, hi, klo, khi int } // kept[klo:khi] lie strictly inside (lo,hi)
+	stack := []frame{{0, len(in) - 1, 1, len(kept) - 1}}
+	for len(stack) > 0 {
+		if len(stack) > st.maxPending {
+			st.maxPending = len(stack)
+		}
+		f := stack[len(stack)-1]
+		stack = stack[:len(stack)-1]
+		lo, hi := f.lo, f.hi
+		K := kept[f.klo:f.khi]
+		if hi-lo < 2 {
+			continue
+		}
+		st.spans++
+		exact, d2 := spanExact(in, lo, hi, t)
+		dist := func(i int) float64 {
+			if exact {
+				return math.Sqrt(d2(i))
+			}
+			return segDist(in[lo], in[hi], in[i])
+		}
+		M, arg := 0.0, -1
+		for i := lo + 1; i < hi; i++ {
+			if d := dist(i); d > M {
+				M, arg = d, i
+			}
+		}
+		mustSplit, mustNot := M > t*(1+relTol)+tol, M < t*(1-relTol)-tol || math.IsInf(t, 1)
+		if exact {
+			m2 := 0.0
+			for i := lo + 1; i < hi; i++ {
+				m2 = math.Max(m2, d2(i))
+			}
+			mustSplit = m2 > t*t
+			mustNot = m2 <= t*t && t > 0
+		}
+		if len(K) == 0 {
+			if mustSplit {
+				return st, fmt.Errorf("%s: vertices %d..%d all dropped although vertex %d is %v from segment %d-%d, threshold %v (exact arithmetic: %v)", what, lo+1, hi-1, arg, M, lo, hi, t, exact)
+			}
+			continue
+		}
+		if mustNot {
+			return st, fmt.Errorf("%s: vertex %d kept between %d and %d although no vertex there is farther than the threshold %v from segment %d-%d (max %v; exact arithmetic: %v)", what, K[0], lo, hi, t, lo, hi, M, exact)
+		}
+		cand, ncand := -1, 0
+		for pos, k := range K {
+			d := dist(k)
+			if (exact && d == M) || (!exact && d >= M*(1-relTol)-tol) {
+				if ncand == 0 {
+					cand = pos
+				}
+				ncand++
+			}
+		}
+		if ncand == 0 {
+			return st, fmt.Errorf("%s: span %d-%d was split at %v but the farthest vertex %d (distance %v) was dropped", what, lo, hi, short2(K), arg, M)
+		}
+		if ncand > 1 {
+			st.ties++ // several kept vertices tie for the farthest: the first is tried, see the caller
+		}
+		k := K[cand]
+		stack = append(stack, frame{lo, k, f.klo, f.klo + cand}, frame{k, hi, f.klo + cand + 1, f.khi})
+	}
+	return st, nil
+}
+
+func short2(k []int) string {
+	if len(k) <= 12 {
+		return fmt.Sprint(k)
+	}
+	return fmt.Sprintf("%v…(%d indices)", k[:12], len(k))
+}
+
+// checkDPModelRec: the recursive search used only below a span with tied
+// farthest vertices (any of them is a valid split).
+func checkDPModelRec(what string, in []orb.Point, lo0, hi0 int, K0 []int, t, tol float64) error {
 	var verify func(lo, hi int, K []int) error
 	verify = func(lo, hi int, K []int) error {
 		if hi-lo < 2 {
 			return nil
 		}
 		M, arg := 0.0, -1
-		d := make([]float64, hi-lo+1)
 		for i := lo + 1; i < hi; i++ {
-			d[i-lo] = segDist(in[lo], in[hi], in[i])
-			if d[i-lo] > M {
-				M, arg = d[i-lo], i
+			if d := segDist(in[lo], in[hi], in[i]); d > M {
+				M, arg = d, i
 			}
 		}
 		if len(K) == 0 {
@@ -282,7 +452,7 @@ func checkDPModel(what string, in []orb.Point, kept []int, t float64) error {
 		var last error
 		tried := false
 		for pos, k := range K {
-			if d[k-lo] < M*(1-relTol)-tol {
+			if segDist(in[lo], in[hi], in[k]) < M*(1-relTol)-tol {
 				continue
 			}
 			tried = true
@@ -297,11 +467,11 @@ func checkDPModel(what string, in []orb.Point, kept []int, t float64) error {
 			return nil
 		}
 		if !tried {
-			return fmt.Errorf("%s: span %d-%d was split at %v but the farthest vertex %d (distance %v) was dropped", what, lo, hi, K, arg, M)
+			return fmt.Errorf("%s: span %d-%d was split at %v but the farthest vertex %d (distance %v) was dropped", what, lo, hi, short2(K), arg, M)
 		}
 		return last
 	}
-	return verify(0, len(in)-1, kept[1:len(kept)-1])
+	return verify(lo0, hi0, K0)
 }
 
 // ---------------------------------------------------------------- distance functions
@@ -335,7 +505,7 @@ func ownDistance(name string, a, b orb.Point) float64 {
 // underflow floor); the first disagreement is stored in *bad.
 func checkedDF(name string, lib orb.DistanceFunc, bad *error) orb.DistanceFunc {
 	own := name
-	if name == "planar-reentrant" {
+	if name == "planar-reentrant" || name == "planar-method" {
 		own = "planar"
 	}
 	return func(a, b orb.Point) float64 {
@@ -409,7 +579,7 @@ func minInt(a, b int) int {
 // areaTol. It returns the effective (doubled) areas in removal order.
 func visOrder(what string, in []orb.Point, seq map[int][]orb.Point) ([]float64, error) {
 	n := len(in)
-	tolA := areaTol(in)
+	relA, tolA := areaSlack(in)
 	cur := make([]int, n)
 	for i := range cur {
 		cur[i] = i
@@ -444,7 +614,7 @@ func visOrder(what string, in []orb.Point, seq map[int][]orb.Point) ([]float64, 
 				minE, argE = eff[cur[j]], cur[j]
 			}
 		}
-		if eff[r] > minE*(1+relTol)+tolA {
+		if eff[r] > minE*(1+relA)+tolA {
 			return nil, fmt.Errorf("%s: step %d removed vertex %d (effective doubled area %v) although vertex %d has the smaller effective doubled area %v; remaining indices %v", what, n-k, r, eff[r], argE, minE, cur)
 		}
 		es = append(es, eff[r])
@@ -469,13 +639,13 @@ func checkVisThreshold(what string, in, out []orb.Point, seq map[int][]orb.Point
 	if n <= min {
 		return nil // unchanged, judged by checkBasic + count
 	}
-	tolA := areaTol(in)
+	relA, tolA := areaSlack(in)
 	thr := 2 * ta
 	lo, hi := 0, 0
-	for lo < len(es) && es[lo] < thr*(1-relTol)-tolA {
+	for lo < len(es) && es[lo] < thr*(1-relA)-tolA {
 		lo++
 	}
-	for hi < len(es) && es[hi] <= thr*(1+relTol)+tolA {
+	for hi < len(es) && es[hi] <= thr*(1+relA)+tolA {
 		hi++
 	}
 	lo, hi = minInt(lo, n-min), minInt(hi, n-min)
